@@ -21,7 +21,9 @@ def run(prop, tier, seed, t0, H):
             "a duplicate delivery or a restart; distinct by full command trace")
     if built and os.path.exists(C.DRV):
         n = 40 if tier == "quick" else 500
-        worlds = [w for pp in sorted(MODULES) for w in W.load_corpus(pp)] + W.run_histories(seed, n, tier)
+        from . import worlddeep
+        worlds = [w for pp in sorted(MODULES) for w in W.load_corpus(pp)] + W.run_histories(seed, n, tier) \
+                 + W.run_histories(seed + 7, 24 if tier == "quick" else 300, tier, gen=worlddeep.gen_deep_history)
         corr, compared = W.correspondence(worlds)
         ofails, stats = [], {"worlds": 0, "quiesced": 0, "live_clients": 0, "divergence": {}, "crashed": 0}
         for w in worlds:
